@@ -23,7 +23,8 @@ Record view := mkView {
   v_slashed_batch : Z;
   v_calls : list (Z * Z * list Z);      (* outgoing bridge calls: nonce, block height, confirming external ids *)
   v_slashed_call : Z;
-  v_vals : list (Z * Z * Z) }.          (* real staking: validator id, Tokens, DelegatorShares (scaled 10^18) *)
+  v_vals : list (Z * Z * Z);
+  v_lastobs : Z }.                      (* nonce of the last observed oracle set, -1 = none *)          (* real staking: validator id, Tokens, DelegatorShares (scaled 10^18) *)
 
 Record universe := mkU { u_accs : list Z; u_orcs : list Z; u_exts : list Z; u_vals : list Z }.
 
@@ -44,7 +45,8 @@ Definition view_of (U : universe) (s : state) : view :=
     (map (view_obj U) (sets s)) (slashed_set s)
     (map (view_obj U) (batches s)) (slashed_batch_block s)
     (map (view_obj U) (calls s)) (slashed_call s)
-    (map (fun v => (v, vtok s v, vshr s v)) (u_vals U)).
+    (map (fun v => (v, vtok s v, vshr s v)) (u_vals U))
+    (match last_obs s with Some n => n | None => -1 end).
 
 Fixpoint list_eqb {A} (eqb : A -> A -> bool) (l1 l2 : list A) : bool :=
   match l1, l2 with
@@ -79,6 +81,7 @@ Definition view_diff (a b : view) : Z :=
   else if negb (list_eqb objv_eqb (v_calls a) (v_calls b)) then 14
   else if negb (v_slashed_call a =? v_slashed_call b) then 15
   else if negb (list_eqb triple_eqb (v_vals a) (v_vals b)) then 16
+  else if negb (v_lastobs a =? v_lastobs b) then 17
   else 0.
 
 (* the harness prints, per operation, only what changed in the projection *)
@@ -101,7 +104,8 @@ Inductive vdelta :=
 | DCall (x : Z * Z * list Z)
 | DCalls (l : list (Z * Z * list Z))
 | DSlashedCall (z : Z)
-| DVal (x : Z * Z * Z).
+| DVal (x : Z * Z * Z)
+| DLastObs (z : Z).
 
 Fixpoint insert_rec (r : oracle) (l : list oracle) : list oracle :=
   match l with
@@ -131,25 +135,26 @@ Fixpoint put_val (x : Z * Z * Z) (l : list (Z * Z * Z)) : list (Z * Z * Z) :=
 
 Definition patch1 (v : view) (d : vdelta) : view :=
   match d with
-  | DRec a r => mkView (patch_rec a r (v_recs v)) (v_byb v) (v_bye v) (v_prop v) (v_power v) (v_deleg v) (v_ubds v) (v_balo v) (v_bald v) (v_sets v) (v_slashed_set v) (v_batches v) (v_slashed_batch v) (v_calls v) (v_slashed_call v) (v_vals v)
-  | DByB l => mkView (v_recs v) l (v_bye v) (v_prop v) (v_power v) (v_deleg v) (v_ubds v) (v_balo v) (v_bald v) (v_sets v) (v_slashed_set v) (v_batches v) (v_slashed_batch v) (v_calls v) (v_slashed_call v) (v_vals v)
-  | DByE l => mkView (v_recs v) (v_byb v) l (v_prop v) (v_power v) (v_deleg v) (v_ubds v) (v_balo v) (v_bald v) (v_sets v) (v_slashed_set v) (v_batches v) (v_slashed_batch v) (v_calls v) (v_slashed_call v) (v_vals v)
-  | DProp l => mkView (v_recs v) (v_byb v) (v_bye v) l (v_power v) (v_deleg v) (v_ubds v) (v_balo v) (v_bald v) (v_sets v) (v_slashed_set v) (v_batches v) (v_slashed_batch v) (v_calls v) (v_slashed_call v) (v_vals v)
-  | DPower z => mkView (v_recs v) (v_byb v) (v_bye v) (v_prop v) z (v_deleg v) (v_ubds v) (v_balo v) (v_bald v) (v_sets v) (v_slashed_set v) (v_batches v) (v_slashed_batch v) (v_calls v) (v_slashed_call v) (v_vals v)
-  | DDeleg l => mkView (v_recs v) (v_byb v) (v_bye v) (v_prop v) (v_power v) l (v_ubds v) (v_balo v) (v_bald v) (v_sets v) (v_slashed_set v) (v_batches v) (v_slashed_batch v) (v_calls v) (v_slashed_call v) (v_vals v)
-  | DUbds l => mkView (v_recs v) (v_byb v) (v_bye v) (v_prop v) (v_power v) (v_deleg v) l (v_balo v) (v_bald v) (v_sets v) (v_slashed_set v) (v_batches v) (v_slashed_batch v) (v_calls v) (v_slashed_call v) (v_vals v)
-  | DBalO i z => mkView (v_recs v) (v_byb v) (v_bye v) (v_prop v) (v_power v) (v_deleg v) (v_ubds v) (upd_nth i z (v_balo v)) (v_bald v) (v_sets v) (v_slashed_set v) (v_batches v) (v_slashed_batch v) (v_calls v) (v_slashed_call v) (v_vals v)
-  | DBalD i z => mkView (v_recs v) (v_byb v) (v_bye v) (v_prop v) (v_power v) (v_deleg v) (v_ubds v) (v_balo v) (upd_nth i z (v_bald v)) (v_sets v) (v_slashed_set v) (v_batches v) (v_slashed_batch v) (v_calls v) (v_slashed_call v) (v_vals v)
-  | DSet x => mkView (v_recs v) (v_byb v) (v_bye v) (v_prop v) (v_power v) (v_deleg v) (v_ubds v) (v_balo v) (v_bald v) (put_obj x (v_sets v)) (v_slashed_set v) (v_batches v) (v_slashed_batch v) (v_calls v) (v_slashed_call v) (v_vals v)
-  | DSets l => mkView (v_recs v) (v_byb v) (v_bye v) (v_prop v) (v_power v) (v_deleg v) (v_ubds v) (v_balo v) (v_bald v) l (v_slashed_set v) (v_batches v) (v_slashed_batch v) (v_calls v) (v_slashed_call v) (v_vals v)
-  | DSlashedSet z => mkView (v_recs v) (v_byb v) (v_bye v) (v_prop v) (v_power v) (v_deleg v) (v_ubds v) (v_balo v) (v_bald v) (v_sets v) z (v_batches v) (v_slashed_batch v) (v_calls v) (v_slashed_call v) (v_vals v)
-  | DBatch x => mkView (v_recs v) (v_byb v) (v_bye v) (v_prop v) (v_power v) (v_deleg v) (v_ubds v) (v_balo v) (v_bald v) (v_sets v) (v_slashed_set v) (put_obj x (v_batches v)) (v_slashed_batch v) (v_calls v) (v_slashed_call v) (v_vals v)
-  | DBatches l => mkView (v_recs v) (v_byb v) (v_bye v) (v_prop v) (v_power v) (v_deleg v) (v_ubds v) (v_balo v) (v_bald v) (v_sets v) (v_slashed_set v) l (v_slashed_batch v) (v_calls v) (v_slashed_call v) (v_vals v)
-  | DSlashedBat z => mkView (v_recs v) (v_byb v) (v_bye v) (v_prop v) (v_power v) (v_deleg v) (v_ubds v) (v_balo v) (v_bald v) (v_sets v) (v_slashed_set v) (v_batches v) z (v_calls v) (v_slashed_call v) (v_vals v)
-  | DCall x => mkView (v_recs v) (v_byb v) (v_bye v) (v_prop v) (v_power v) (v_deleg v) (v_ubds v) (v_balo v) (v_bald v) (v_sets v) (v_slashed_set v) (v_batches v) (v_slashed_batch v) (put_obj x (v_calls v)) (v_slashed_call v) (v_vals v)
-  | DCalls l => mkView (v_recs v) (v_byb v) (v_bye v) (v_prop v) (v_power v) (v_deleg v) (v_ubds v) (v_balo v) (v_bald v) (v_sets v) (v_slashed_set v) (v_batches v) (v_slashed_batch v) l (v_slashed_call v) (v_vals v)
-  | DSlashedCall z => mkView (v_recs v) (v_byb v) (v_bye v) (v_prop v) (v_power v) (v_deleg v) (v_ubds v) (v_balo v) (v_bald v) (v_sets v) (v_slashed_set v) (v_batches v) (v_slashed_batch v) (v_calls v) z (v_vals v)
-  | DVal x => mkView (v_recs v) (v_byb v) (v_bye v) (v_prop v) (v_power v) (v_deleg v) (v_ubds v) (v_balo v) (v_bald v) (v_sets v) (v_slashed_set v) (v_batches v) (v_slashed_batch v) (v_calls v) (v_slashed_call v) (put_val x (v_vals v))
+  | DRec a r => mkView (patch_rec a r (v_recs v)) (v_byb v) (v_bye v) (v_prop v) (v_power v) (v_deleg v) (v_ubds v) (v_balo v) (v_bald v) (v_sets v) (v_slashed_set v) (v_batches v) (v_slashed_batch v) (v_calls v) (v_slashed_call v) (v_vals v) (v_lastobs v)
+  | DByB l => mkView (v_recs v) l (v_bye v) (v_prop v) (v_power v) (v_deleg v) (v_ubds v) (v_balo v) (v_bald v) (v_sets v) (v_slashed_set v) (v_batches v) (v_slashed_batch v) (v_calls v) (v_slashed_call v) (v_vals v) (v_lastobs v)
+  | DByE l => mkView (v_recs v) (v_byb v) l (v_prop v) (v_power v) (v_deleg v) (v_ubds v) (v_balo v) (v_bald v) (v_sets v) (v_slashed_set v) (v_batches v) (v_slashed_batch v) (v_calls v) (v_slashed_call v) (v_vals v) (v_lastobs v)
+  | DProp l => mkView (v_recs v) (v_byb v) (v_bye v) l (v_power v) (v_deleg v) (v_ubds v) (v_balo v) (v_bald v) (v_sets v) (v_slashed_set v) (v_batches v) (v_slashed_batch v) (v_calls v) (v_slashed_call v) (v_vals v) (v_lastobs v)
+  | DPower z => mkView (v_recs v) (v_byb v) (v_bye v) (v_prop v) z (v_deleg v) (v_ubds v) (v_balo v) (v_bald v) (v_sets v) (v_slashed_set v) (v_batches v) (v_slashed_batch v) (v_calls v) (v_slashed_call v) (v_vals v) (v_lastobs v)
+  | DDeleg l => mkView (v_recs v) (v_byb v) (v_bye v) (v_prop v) (v_power v) l (v_ubds v) (v_balo v) (v_bald v) (v_sets v) (v_slashed_set v) (v_batches v) (v_slashed_batch v) (v_calls v) (v_slashed_call v) (v_vals v) (v_lastobs v)
+  | DUbds l => mkView (v_recs v) (v_byb v) (v_bye v) (v_prop v) (v_power v) (v_deleg v) l (v_balo v) (v_bald v) (v_sets v) (v_slashed_set v) (v_batches v) (v_slashed_batch v) (v_calls v) (v_slashed_call v) (v_vals v) (v_lastobs v)
+  | DBalO i z => mkView (v_recs v) (v_byb v) (v_bye v) (v_prop v) (v_power v) (v_deleg v) (v_ubds v) (upd_nth i z (v_balo v)) (v_bald v) (v_sets v) (v_slashed_set v) (v_batches v) (v_slashed_batch v) (v_calls v) (v_slashed_call v) (v_vals v) (v_lastobs v)
+  | DBalD i z => mkView (v_recs v) (v_byb v) (v_bye v) (v_prop v) (v_power v) (v_deleg v) (v_ubds v) (v_balo v) (upd_nth i z (v_bald v)) (v_sets v) (v_slashed_set v) (v_batches v) (v_slashed_batch v) (v_calls v) (v_slashed_call v) (v_vals v) (v_lastobs v)
+  | DSet x => mkView (v_recs v) (v_byb v) (v_bye v) (v_prop v) (v_power v) (v_deleg v) (v_ubds v) (v_balo v) (v_bald v) (put_obj x (v_sets v)) (v_slashed_set v) (v_batches v) (v_slashed_batch v) (v_calls v) (v_slashed_call v) (v_vals v) (v_lastobs v)
+  | DSets l => mkView (v_recs v) (v_byb v) (v_bye v) (v_prop v) (v_power v) (v_deleg v) (v_ubds v) (v_balo v) (v_bald v) l (v_slashed_set v) (v_batches v) (v_slashed_batch v) (v_calls v) (v_slashed_call v) (v_vals v) (v_lastobs v)
+  | DSlashedSet z => mkView (v_recs v) (v_byb v) (v_bye v) (v_prop v) (v_power v) (v_deleg v) (v_ubds v) (v_balo v) (v_bald v) (v_sets v) z (v_batches v) (v_slashed_batch v) (v_calls v) (v_slashed_call v) (v_vals v) (v_lastobs v)
+  | DBatch x => mkView (v_recs v) (v_byb v) (v_bye v) (v_prop v) (v_power v) (v_deleg v) (v_ubds v) (v_balo v) (v_bald v) (v_sets v) (v_slashed_set v) (put_obj x (v_batches v)) (v_slashed_batch v) (v_calls v) (v_slashed_call v) (v_vals v) (v_lastobs v)
+  | DBatches l => mkView (v_recs v) (v_byb v) (v_bye v) (v_prop v) (v_power v) (v_deleg v) (v_ubds v) (v_balo v) (v_bald v) (v_sets v) (v_slashed_set v) l (v_slashed_batch v) (v_calls v) (v_slashed_call v) (v_vals v) (v_lastobs v)
+  | DSlashedBat z => mkView (v_recs v) (v_byb v) (v_bye v) (v_prop v) (v_power v) (v_deleg v) (v_ubds v) (v_balo v) (v_bald v) (v_sets v) (v_slashed_set v) (v_batches v) z (v_calls v) (v_slashed_call v) (v_vals v) (v_lastobs v)
+  | DCall x => mkView (v_recs v) (v_byb v) (v_bye v) (v_prop v) (v_power v) (v_deleg v) (v_ubds v) (v_balo v) (v_bald v) (v_sets v) (v_slashed_set v) (v_batches v) (v_slashed_batch v) (put_obj x (v_calls v)) (v_slashed_call v) (v_vals v) (v_lastobs v)
+  | DCalls l => mkView (v_recs v) (v_byb v) (v_bye v) (v_prop v) (v_power v) (v_deleg v) (v_ubds v) (v_balo v) (v_bald v) (v_sets v) (v_slashed_set v) (v_batches v) (v_slashed_batch v) l (v_slashed_call v) (v_vals v) (v_lastobs v)
+  | DSlashedCall z => mkView (v_recs v) (v_byb v) (v_bye v) (v_prop v) (v_power v) (v_deleg v) (v_ubds v) (v_balo v) (v_bald v) (v_sets v) (v_slashed_set v) (v_batches v) (v_slashed_batch v) (v_calls v) z (v_vals v) (v_lastobs v)
+  | DVal x => mkView (v_recs v) (v_byb v) (v_bye v) (v_prop v) (v_power v) (v_deleg v) (v_ubds v) (v_balo v) (v_bald v) (v_sets v) (v_slashed_set v) (v_batches v) (v_slashed_batch v) (v_calls v) (v_slashed_call v) (put_val x (v_vals v)) (v_lastobs v)
+  | DLastObs z => mkView (v_recs v) (v_byb v) (v_bye v) (v_prop v) (v_power v) (v_deleg v) (v_ubds v) (v_balo v) (v_bald v) (v_sets v) (v_slashed_set v) (v_batches v) (v_slashed_batch v) (v_calls v) (v_slashed_call v) (v_vals v) z
   end.
 Definition patch (v : view) (ds : list vdelta) : view := fold_left patch1 ds v.
 
